@@ -2,6 +2,7 @@ import MosdnsVerif.Base.Hex
 import MosdnsVerif.Model.C20
 import MosdnsVerif.Model.C20Pool
 import MosdnsVerif.Model.C20Time
+import MosdnsVerif.Model.C20Copy
 import MosdnsVerif.Gen.FnFallback
 
 namespace Driver.C20
@@ -39,6 +40,30 @@ def tlabel? (s : String) : Option TLabel :=
     | _, _ => none
   | _ => none
 
+/-- `8.10.8` option codes in order, `-` none -/
+def opts? (s : String) : Option Model.C20Copy.Opts :=
+  if s == "-" then some [] else (s.splitOn ".").mapM (·.toNat?)
+
+def showOpts (o : Model.C20Copy.Opts) : String :=
+  if o.isEmpty then "-" else ".".intercalate (o.map toString)
+
+/-- `pl` / `sl` the primary / secondary looks at its query; `pa<code>` / `sa<code>` appends an option, `pd<code>` /
+`sd<code>` deletes the options with that code, `pc` / `sc` drops all options -/
+def qev? (s : String) : Option Model.C20Copy.Ev :=
+  match s.toList with
+  | w :: k :: rest =>
+    let who? : Option Model.C20Copy.Who := if w == 'p' then some .prim else if w == 's' then some .sec else none
+    match who? with
+    | none => none
+    | some who =>
+      let arg := String.ofList rest
+      if k == 'l' && rest.isEmpty then some (.look who)
+      else if k == 'c' && rest.isEmpty then some (.edit who .clear)
+      else if k == 'a' then arg.toNat?.map (fun c => .edit who (.add c))
+      else if k == 'd' then arg.toNat?.map (fun c => .edit who (.del c))
+      else none
+  | _ => none
+
 /-- `pool <borrow;borrow;...>` (oldest first): the timer `pool.GetTimer` hands out after these borrows of it,
 with the draining `ReleaseTimer` the facts guard demands.
 
@@ -47,6 +72,10 @@ enabled step by step. Output: result, whether the secondary was started.
 
 `thr <ms>`: the timer duration (ns) of a plugin configured with `threshold: ms` (the regenerated
 `Gen.fallbackThreshold`).
+
+`qfork <opts> <ev,ev,...>`: the caller's query has these options; `qCtx.Copy()` twice (deep copies, as the facts
+guard demands); then the events in this order. Output: what the primary read at each of its looks, what the
+secondary read, and the caller's options afterwards.
 
 `tsched <ms> <pAns> <sAns> <standby> <t:label,t:label,...>`: a timed schedule for a plugin configured with
 `threshold: ms`: times must not go backwards and the timer must not fire before `Gen.fallbackThreshold ms`;
@@ -72,6 +101,13 @@ def handle : List String → String
         | none => "not-enabled"
         | some st => s!"{showRes st.result} secStarted={Hex.showBool (secStarted st)}"
     | _, _, _, _, _ => "bad-op"
+  | ["qfork", q, evs] =>
+    match opts? q, (if evs == "-" then some [] else (evs.splitOn ",").mapM qev?) with
+    | some q, some evs =>
+      let c := Model.C20Copy.fork q
+      let sh := fun (l : List Model.C20Copy.Opts) => if l.isEmpty then "none" else "|".intercalate (l.map showOpts)
+      s!"prim={sh (Model.C20Copy.sees true .prim c evs)} sec={sh (Model.C20Copy.sees true .sec c evs)} caller={showOpts (Model.C20Copy.final true c evs).caller}"
+    | _, _ => "bad-op"
   | ["pool", hist] =>
     match (hist.splitOn ";").mapM borrow? with
     | some bs =>
